@@ -2446,6 +2446,26 @@ func c17SemTextField(c *Ctx, m *c17M, ty *c17Types) {
 		runKey(v, mkKey('x', 0, "x", release), "release of x", "none", "")
 		v.record(c, rule, he.Name+"/key release changes nothing", he.Decl.Pos(), "release events are ignored")
 	}
+	// C17.h: which key event types are keystrokes. A held key is delivered as one press followed by repeat events
+	// (kitty protocol); every repeat is a keystroke of its own, a release is none.
+	if repeat, ok := c17Const(vx, "EventRepeat"); ok {
+		v := &c17Verdict{}
+		for _, b := range ref {
+			runKey(v, mkKey(b.code, b.mods, "", repeat), "repeat event of "+keys.format(b.code, b.mods), b.op, "")
+		}
+		for _, txt := range []string{"x", "世", "e\u0301"} {
+			r, _ := utf8.DecodeRuneInString(txt)
+			runKey(v, mkKey(int64(r), 0, txt, repeat), fmt.Sprintf("repeat event typing %q", txt), "insert", txt)
+		}
+		v.record(c, "C17.h", he.Name+"/a repeated key (EventRepeat) is a keystroke: same step as a press", he.Decl.Pos(), "every binding and typed text acts on a repeat event exactly as on a press")
+	}
+	if okRel {
+		v := &c17Verdict{}
+		for _, b := range ref {
+			runKey(v, mkKey(b.code, b.mods, "", release), "release event of "+keys.format(b.code, b.mods), "none", "")
+		}
+		v.record(c, "C17.h", he.Name+"/a released key (EventRelease) is not a keystroke", he.Decl.Pos(), "no binding edits, moves the cursor, or fires a callback on a release event")
+	}
 	// exported editing methods
 	type api struct {
 		name string
@@ -2712,6 +2732,25 @@ func c17SemTextInput(c *Ctx, m *c17M, ty *c17Types) {
 		runOne(v, mkKey("\u0301", "\u0301", press), "typed U+0301", "", "")
 		runOne(v, mkKey("x", "x", release), "release of x", "none", "")
 		v.record(c, rule, up.Name+"/release changes nothing, chords type nothing", up.Decl.Pos(), "release ignored; unbound Ctrl/Alt/Super chords carrying text insert nothing")
+	}
+	// C17.h: which key event types are keystrokes (press and repeat; release is none; paste is buffered, see above)
+	if repeat, ok := c17Const(vx, "EventRepeat"); ok {
+		v := &c17Verdict{}
+		for _, b := range ref {
+			runOne(v, keys.mk(b.code, b.mods, "", repeat), "repeat event of "+keys.format(b.code, b.mods), b.op, "")
+		}
+		for _, txt := range []string{"x", "世", "e\u0301"} {
+			r, _ := utf8.DecodeRuneInString(txt)
+			runOne(v, keys.mk(int64(r), 0, txt, repeat), fmt.Sprintf("repeat event typing %q", txt), "insert", txt)
+		}
+		v.record(c, "C17.h", up.Name+"/a repeated key (EventRepeat) is a keystroke: same step as a press", up.Decl.Pos(), "every binding and typed text acts on a repeat event exactly as on a press")
+	}
+	if _, ok := c17Const(vx, "EventRelease"); ok {
+		v := &c17Verdict{}
+		for _, b := range ref {
+			runOne(v, keys.mk(b.code, b.mods, "", release), "release event of "+keys.format(b.code, b.mods), "none", "")
+		}
+		v.record(c, "C17.h", up.Name+"/a released key (EventRelease) is not a keystroke", up.Decl.Pos(), "no binding edits or moves the cursor on a release event")
 	}
 	// paste brackets: (PasteStart,) keys of type paste accumulate, the end event inserts the text once at the cursor and
 	// advances the cursor by its grapheme clusters (not runes, not bytes), a second end event inserts nothing, and a
@@ -5147,6 +5186,7 @@ func runC17(c *Ctx) {
 		"C17.d every loop stepping Model.offset continues only under a bound by a loop-invariant term and steps on every iteration",
 		"C17.e TextField (interpreted, bounded states x every binding and exported editing method): one step equals the ideal grapheme editor in Value, cursor and n; OnChange/OnSubmit fire exactly as specified",
 		"C17.f textinput.Update (interpreted, bounded states x every case label, text, paste brackets, release, SetContent/String/CursorPosition): one step equals the ideal grapheme editor",
+		"C17.h key event types (interpreted): in TextField.HandleEvent and textinput.Update a repeat event (EventRepeat) of every reference binding and of typed text performs the same step as a press; a release event of every binding changes nothing and fires no callback (paste-type keys are buffered, C17.f)",
 		"C17.g Draw (interpreted): returns for every window width 1..16; when the text fits (with the scroll margin) the drawn cursor column is the display width of the text before the cursor",
 	}
 	c.NotDec = []string{
@@ -5168,6 +5208,9 @@ func runC17(c *Ctx) {
 	c.expect("C17.e", 20)
 	c.expect("C17.f", 20)
 	c.expect("C17.g", 3)
+	if _, ok := c17Const(c.P.Pkg("vaxis"), "EventRepeat"); ok {
+		c.expect("C17.h", 4)
+	}
 
 	vx := c.P.Pkg("vaxis")
 	ty := &c17Types{vx: vx, keyT: c17Named(vx, "Key"), charT: c17Named(vx, "Character"), windowT: c17Named(vx, "Window"), pasteEndT: c17Named(vx, "PasteEndEvent")}
